@@ -335,9 +335,13 @@ def pred_eigen(spec: dict, x, np_seed: int, chain: dict | None = None):
         h.remove_trans_rot = False
         iv = h.generate_random_vector(d)
         h.eigenvector_bounds = [(-math.inf, math.inf)] * d
-    lo, up = c.active_bounds()
+    lo, up = c.active_bounds()                     # what `run` hands on
     h.update_eigenvector_bounds(lo, up)
     ret, err = call(h.get_smallest_eigenvector, iv, c, lo, up)
+    # where the point really is: direct comparison with the box, written here
+    xa = np.array(x, dtype=float)
+    lo = xa <= np.array([b[0] for b in bounds], dtype=float)
+    up = xa >= np.array([b[1] for b in bounds], dtype=float)
     if chain is not None:
         chain["h"] = h
         chain["v"] = None if (err or ret[0] is None or np.any(np.isnan(ret[0]))) else np.array(ret[0], dtype=float)
@@ -378,9 +382,80 @@ def pred_eigen(spec: dict, x, np_seed: int, chain: dict | None = None):
     return None, "boundary"
 
 
+def pred_run_directions(seed: int) -> tuple[str, str] | None:
+    """the curvature searches made INSIDE a real `run`: an index-one quadratic saddle whose stationary point lies just
+    outside a wall, soft mode oblique to it, started a little inside — the walker reaches the wall during a subspace
+    minimisation.  Every direction `get_smallest_eigenvector` returns is judged against the walker's position at the
+    moment of the call (direct comparison with the box): on a face a unit vector with no outward component, in the
+    interior the lowest eigenpair of the (constant) Hessian, pointing uphill."""
+    import random
+    StandardCoordinates, HEF, _ = imports()
+    rng = random.Random(seed)
+    d = rng.choice([2, 2, 3])
+    q, _r = np.linalg.qr(np.array([[rng.gauss(0, 1) for _ in range(d)] for _ in range(d)]))
+    eigs = [-rng.uniform(0.6, 1.5)] + [rng.uniform(0.8, 2.5) for _ in range(d - 1)]
+    A = (q * np.array(eigs)) @ q.T
+    A = (A + A.T) / 2
+    wall = rng.randrange(d)
+    cpt = np.array([rng.uniform(-0.5, 0.5) for _ in range(d)])
+    cpt[wall] = -rng.uniform(0.02, 0.08)                    # stationary point just outside the wall x[wall] = 0
+    pot = quad_potential(A, -A @ cpt)
+    bounds = [(-2.0, 2.0)] * d
+    bounds[wall] = (0.0, 2.0)
+    c = StandardCoordinates(ndim=d, bounds=bounds)
+    x0 = cpt + np.array([rng.uniform(-0.15, 0.15) for _ in range(d)])
+    x0[wall] = rng.uniform(0.03, 0.09)
+    c.position = np.clip(x0, [b[0] for b in bounds], [b[1] for b in bounds])
+    h = HEF(pot, 1e-5, 40, 0.3, max_uphill_step_size=0.2, positive_eigenvalue_step=0.05)
+    log = []
+    real = h.get_smallest_eigenvector
+
+    def spy(iv, coords, lo, up):
+        at = np.array(coords.position, dtype=float).copy()
+        out = real(iv, coords, lo, up)
+        log.append((at, out))
+        return out
+    h.get_smallest_eigenvector = spy
+    np.random.seed(seed % (2 ** 31))
+    _, err = call(h.run, c)
+    if err:
+        return ("run:raises", f"run raised {err} (seed {seed})")
+    w, U = np.linalg.eigh(A)
+    lob, upb = np.array([b[0] for b in bounds]), np.array([b[1] for b in bounds])
+    for n_call, (at, (v, ev, _nit)) in enumerate(log):
+        if v is None:
+            continue
+        v = np.array(v, dtype=float)
+        lo, up = at <= lob, at >= upb
+        where = f"curvature search {n_call + 1} of a run (seed {seed}, d={d}) at {at.tolist()}"
+        if np.any(np.isnan(v)) or abs(float(np.linalg.norm(v)) - 1.0) > 1e-9:
+            return ("get_smallest_eigenvector:not-unit:inside-run", f"{where}: |v| = {float(np.linalg.norm(v))}")
+        if np.any(lo) or np.any(up):
+            if any((lo[i] and v[i] < -1e-12) or (up[i] and v[i] > 1e-12) for i in range(d)):
+                return ("get_smallest_eigenvector:outward-component:inside-run",
+                        f"{where}: the walker sits on a face (lower {lo.tolist()}, upper {up.tolist()}) and the direction "
+                        f"{v.tolist()} points out of the box through it")
+        else:
+            if abs(ev - w[0]) > 1e-3 * max(1.0, float(np.max(np.abs(w)))) or abs(float(v @ U[:, 0])) < 1.0 - 1e-3:
+                return ("get_smallest_eigenvector:eigenvector:inside-run",
+                        f"{where}: an interior point, but the direction has overlap {float(v @ U[:, 0]):.4f} with the softest "
+                        f"mode and eigenvalue {ev} (lowest {w[0]})")
+            g = pot.gradient(at)
+            if float(g @ v) < -1e-9 * max(1.0, float(np.linalg.norm(g))):
+                return ("get_smallest_eigenvector:downhill:inside-run", f"{where}: overlap with the gradient {float(g @ v)}")
+    return None
+
+
 def predicates(ctx: Ctx) -> None:
     rng = ctx.rng
     deep = 4 if getattr(ctx, "deep_search", False) else 1
+    for _ in range(ctx.scale(25, 150) * deep):
+        sd = rng.randrange(2 ** 31)
+        r = pred_run_directions(sd)
+        ctx.stats.case({"stream": "predicate-directions-inside-run", "seed": sd}, True)
+        if r:
+            ctx.fail(r[0], r[1], {"kind": "run", "seed": sd})
+            break
     for v, g in [([0.0, 1.0, 0.0], [0.0, -1.0, 0.0]), ([0.0, 0.0, 1.0], [5.0, 0.0, -1.0]), ([1.0, 0.0], [-1.0, 0.0]),
                  ([0.0], [1.0]), ([1.0, 1.0], [1.0, -1.0])]:
         r = pred_direction(v, g)
@@ -418,6 +493,14 @@ def predicates(ctx: Ctx) -> None:
         for k in range(ctx.scale(4, 10)):
             x = H.start_point(rng, bounds, on_bound_prob=(0.0 if k % 2 == 0 else 0.5) if chain is None
                               else (0.9 if k % 2 == 0 else 0.0))
+            if rng.random() < 0.25:
+                # strictly inside the box, a hair's breadth from a wall (a minimiser stopping just short of it): an
+                # interior point like any other
+                j = rng.randrange(len(bounds))
+                w = bounds[j][1] - bounds[j][0]
+                delta = w * 10.0 ** rng.uniform(-7.0, -3.5)
+                x = list(x)
+                x[j] = bounds[j][1] - delta if rng.random() < 0.5 else bounds[j][0] + delta
             seed = rng.randrange(2 ** 31)
             r, kind = pred_eigen(spec, x, seed, chain)
             ctx.stats.case({"stream": "predicate-eigen", "surface": spec, "x": V(x)}, True)
@@ -488,6 +571,8 @@ def replay(ctx: Ctx, data: dict) -> bool:
     kind = data.get("kind")
     if kind == "direction":
         r = pred_direction(data["v"], data["g"])
+    elif kind == "run":
+        r = pred_run_directions(data["seed"])
     elif kind == "walk":
         r = pred_direction_walk(data["points"], data["vs"])
     elif kind == "eigen":
